@@ -135,9 +135,9 @@ func hiddenTerm(t *tm.Term, hp hidePos) *tm.Term {
 }
 
 func runC07(c *core.Ctx, r *core.Result) {
-	p := plan{fullDepth: 3, coreDepth: 4, alphabet: tm.REGE, aliasSides: true}
+	p := plan{fullDepth: 3, coreDepth: 4, strDepth: 2, alphabet: tm.REGE, aliasSides: true}
 	if c.Thorough() {
-		p = plan{fullDepth: 4, coreDepth: 5, alphabet: tm.REGE, aliasSides: true}
+		p = plan{fullDepth: 4, coreDepth: 5, strDepth: 2, alphabet: tm.REGE, aliasSides: true}
 	}
 	r.Bounds = p.String() + "; every hidden position of every term (barrier cause, secondary error, error-valued format argument, mark reference); local and after hop_K (thorough: also hop_K^2)"
 	r.Rule = "state = (term, hidden position, stage); non-trivial = the hidden sub-tree carries at least one annotation, sentinel or As-able type that a leaking accessor would pick up (its own structural vector differs from that of a plain leaf)"
@@ -148,8 +148,13 @@ func runC07(c *core.Ctx, r *core.Result) {
 		if len(hps) == 0 {
 			return
 		}
+		variant := t.Depth() <= p.strDepth && nonDefaultStrings(t) != ""
 		for _, hp := range hps {
 			hp := hp
+			if variant && hp.kind != "barrier-newmsg" {
+				// string variants are explored for the replacement messages only
+				continue
+			}
 			rich := false
 			report(r, t, map[string]interface{}{"hidden_spine_pos": hp.spine, "hidden_side": hp.side}, func(t *tm.Term) string {
 				return guarded("C07", func() string {
@@ -175,6 +180,12 @@ func runC07(c *core.Ctx, r *core.Result) {
 					e := t.Build()
 					e0 := plainT.Build()
 					hObj := H.Build()
+					if cur.kind == "barrier-newmsg" {
+						// the message given to the constructor replaces the text, verbatim
+						if got, want := errText(e), t.Model().Text; got != want {
+							return fail("newmsg-text", "the barrier's message replaces the hidden error's text: Error() = %q, the constructor was given text making %q", got, want)
+						}
+					}
 					var refs []tm.NamedErr
 					refs = append(refs, sent...)
 					var types []error
@@ -242,6 +253,22 @@ func runC07(c *core.Ctx, r *core.Result) {
 						for _, ln := range strings.Split(hObj.Error(), "\n") {
 							if ln != "" && !strings.Contains(plain, ln) {
 								return fail("invisible:"+cur.kind+":"+st.name, "the hidden error's text %q is not shown by %%+v at stage %s", ln, st.name)
+							}
+						}
+						// fully visible: every constructor string that %+v shows for
+						// the hidden error on its own (same stage) is shown inside e
+						// (same stage = the same number of hops: constructors
+						// above the hidden position that transfer their argument count)
+						hAlone := st.get(H.Build())
+						for k, o := 0, t; k < cur.spine && o != nil; k, o = k+1, o.Kid {
+							if o.Op.Name == "HopThenWrap" {
+								hAlone, _ = tm.HopK(hAlone)
+							}
+						}
+						alone := fmt.Sprintf("%+v", errors.Formattable(hAlone))
+						for _, tk := range tokRe.FindAllString(alone, -1) {
+							if !strings.Contains(plain, tk) {
+								return fail("invisible-detail:"+cur.kind+":"+st.name, "%%+v of the hidden error alone shows its string %s, %%+v of the enclosing error at stage %s does not", tk, st.name)
 							}
 						}
 					}
